@@ -751,7 +751,8 @@ func (g *swGen) header(k int) (kind string, b []byte, exp string) {
 		}
 		return "p.IGMPv3MembershipReport", x.b, e.String("p.IGMPv3MembershipReport")
 	case 6: // IPv6 routing header
-		nh, segs, left := int(g.u(255)), g.r.Intn(3), g.r.Intn(3)
+		// headers of 256 bytes and more (HEL >= 31) included: the size must not be computed in 8 bits
+		nh, segs, left := int(g.u(255)), []int{0, 1, 2, 15, 16, 20, 127}[g.r.Intn(7)], g.r.Intn(3)
 		data := append(make([]byte, 4), g.bytes(16*segs)...)
 		e.num("NextHeader", uint64(nh))
 		e.num("HEL", uint64(2*segs))
@@ -761,7 +762,7 @@ func (g *swGen) header(k int) (kind string, b []byte, exp string) {
 		return "p.RoutingHeader", nb().u8(nh, 2*segs, 0, left).raw(data).b, e.String("p.RoutingHeader")
 	case 7: // IPv6 hop-by-hop header with options filling it exactly
 		nh := int(g.u(255))
-		units := g.r.Intn(3)
+		units := []int{0, 1, 2, 30, 31, 32, 63, 255}[g.r.Intn(8)]
 		total := 8 * (units + 1)
 		x := nb().u8(nh, units)
 		e.num("NextHeader", uint64(nh))
@@ -771,7 +772,7 @@ func (g *swGen) header(k int) (kind string, b []byte, exp string) {
 		for rem > 0 {
 			l := 0
 			if rem >= 2 {
-				l = g.r.Intn(rem - 1)
+				l = g.r.Intn(min(rem-1, 254))
 				if rem-2-l == 1 { // never leave a single byte
 					l++
 				}
